@@ -412,9 +412,53 @@ class Inliner:
 
         return pre, R().visit(expr)
 
+    def inline_expressions(self, fn, cls):
+        """Calls of helpers whose whole body is `return <expression>` are replaced in place (any position, also conditional ones)."""
+        inl = self
+        changed = [False]
+
+        class T(ast.NodeTransformer):
+            def visit_Call(self_, node):
+                self_.generic_visit(node)
+                r = inl.resolve(node, cls)
+                if r is None:
+                    return node
+                q, recv = r
+                hfn, body = inl.helpers[q]
+                if not (len(body) == 1 and isinstance(body[0], ast.Return) and body[0].value is not None):
+                    return node
+                params = [a.arg for a in hfn.args.args]
+                static = "staticmethod" in _deco(hfn) or "." not in q
+                args = list(node.args)
+                if not static and recv is not None:
+                    args = [recv] + args
+                if len(args) != len(params) or node.keywords or any(isinstance(a, ast.Starred) for a in args):
+                    return node
+                uses = {}
+                for n in ast.walk(body[0].value):
+                    if isinstance(n, ast.Name):
+                        uses[n.id] = uses.get(n.id, 0) + 1
+                if any(isinstance(n, (ast.Lambda, ast.ListComp, ast.GeneratorExp, ast.SetComp, ast.DictComp)) for n in ast.walk(body[0].value)):
+                    return node
+                for p_, a in zip(params, args):
+                    if not (_pure(a) or uses.get(p_, 0) <= 1):
+                        return node
+                sub = _Subst(dict(zip(params, args)), {})
+                new = sub.visit(copy.deepcopy(body[0].value))
+                changed[0] = True
+                inl.inlined.append((q, node.lineno))
+                return ast.copy_location(new, node)
+
+        T().visit(fn)
+        return changed[0]
+
     def run(self):
         if not self.helpers:
             return
+        for q, fn in list(self.funcs.items()):
+            if q in self.helpers:
+                continue
+            self.inline_expressions(fn, q.split(".")[0] if "." in q else None)
         for q, fn in list(self.funcs.items()):
             if q in self.helpers:
                 continue
